@@ -287,6 +287,7 @@ func reducedPaths(c *Ctx, fn *ssa.Function) ([]redPath, error) {
 		epoch         map[*ssa.Alloc]int
 	}
 	var walk func(b, prev *ssa.BasicBlock, st state, depth int) error
+	var objDesc func(v ssa.Value) string
 	describeCall := func(call *ssa.Call, phi map[*ssa.Phi]ssa.Value) string {
 		sc := call.Call.StaticCallee()
 		if sc == nil {
@@ -319,15 +320,40 @@ func reducedPaths(c *Ctx, fn *ssa.Function) ([]redPath, error) {
 			}
 			return "VarInt(?)"
 		case funcName(sc) == "(*bt.Input).readFrom":
-			return "Input.readFrom(extended=" + argDesc(call.Call.Args[2]) + ")"
+			return "Input.readFrom(" + objDesc(call.Call.Args[0]) + ",extended=" + argDesc(call.Call.Args[2]) + ")"
 		default:
 			if _, ok := consumeIndex(call); ok {
-				return strings.TrimPrefix(funcName(sc), "(*bt.")
+				recv := ""
+				if sc.Signature.Recv() != nil && len(call.Call.Args) > 0 {
+					recv = "(" + objDesc(call.Call.Args[0]) + ")"
+				}
+				return strings.TrimPrefix(funcName(sc), "(*bt.") + recv
 			}
 		}
 		return ""
 	}
 	var curEpoch map[*ssa.Alloc]int
+	var curLoop map[*ssa.BasicBlock]bool
+	freshNames := map[*ssa.Alloc]string{}
+	// objDesc names the object a reader fills / an append stores: "fresh<k>" for a new(T)
+	// executed inside the loop being summarised (one object per iteration), "hoisted:<name>"
+	// for one allocated outside it (shared by all iterations).
+	objDesc = func(v ssa.Value) string {
+		al, ok := v.(*ssa.Alloc)
+		if !ok || !al.Heap {
+			return w.term(v)
+		}
+		if curLoop != nil && curLoop[al.Block()] {
+			if _, ok := freshNames[al]; !ok {
+				freshNames[al] = fmt.Sprintf("fresh%d", len(freshNames)+1)
+			}
+			return freshNames[al]
+		}
+		if curLoop == nil {
+			return "obj:" + al.Comment
+		}
+		return "hoisted:" + al.Comment
+	}
 	blockEvents := func(b *ssa.BasicBlock, phi map[*ssa.Phi]ssa.Value) []string {
 		var ev []string
 		for _, ins := range b.Instrs {
@@ -344,7 +370,11 @@ func reducedPaths(c *Ctx, fn *ssa.Function) ([]redPath, error) {
 				if bi, ok := x.Call.Value.(*ssa.Builtin); ok && bi.Name() == "append" {
 					// tx.Inputs = append(tx.Inputs, input)
 					if f := appendTargetField(x); f != "" {
-						ev = append(ev, "append("+f+")")
+						var vals []string
+						for _, av := range appendedValues(x) {
+							vals = append(vals, objDesc(av))
+						}
+						ev = append(ev, "append("+f+"<-"+strings.Join(vals, ",")+")")
 					}
 				}
 			case *ssa.Store:
@@ -402,6 +432,9 @@ func reducedPaths(c *Ctx, fn *ssa.Function) ([]redPath, error) {
 			in := loopBlocks(b, latches)
 			// loop summary: events of the body blocks in index order, count from the header test
 			var body []string
+			curLoop = in
+			freshNames = map[*ssa.Alloc]string{}
+			defer func() { curLoop = nil }()
 			for _, lb := range b.Parent().Blocks {
 				if in[lb] && lb != b {
 					body = append(body, blockEvents(lb, phi)...)
@@ -490,9 +523,39 @@ func appendTargetField(call *ssa.Call) string {
 			if fa, ok := st.Addr.(*ssa.FieldAddr); ok {
 				return fieldName(fa.X.Type(), fa.Field)
 			}
+			if _, ok := st.Addr.(*ssa.Parameter); ok {
+				return "*self"
+			}
 		}
 	}
 	return ""
+}
+
+// appendedValues lists the values of a variadic append(s, v1, v2...) as stored into the
+// compiler-made argument array.
+func appendedValues(call *ssa.Call) []ssa.Value {
+	if len(call.Call.Args) != 2 {
+		return nil
+	}
+	sl, ok := call.Call.Args[1].(*ssa.Slice)
+	if !ok {
+		return []ssa.Value{call.Call.Args[1]}
+	}
+	al, ok := sl.X.(*ssa.Alloc)
+	if !ok || al.Referrers() == nil {
+		return []ssa.Value{sl.X}
+	}
+	var out []ssa.Value
+	for _, r := range *al.Referrers() {
+		if ia, ok := r.(*ssa.IndexAddr); ok && ia.Referrers() != nil {
+			for _, rr := range *ia.Referrers() {
+				if st, ok := rr.(*ssa.Store); ok && st.Addr == ssa.Value(ia) {
+					out = append(out, st.Val)
+				}
+			}
+		}
+	}
+	return out
 }
 
 func decodeDesc(v ssa.Value) string {
@@ -609,10 +672,10 @@ func ruleWRdTx(c *Ctx) {
 	head := "Read4(b1);Version=LE32(b1);VarInt(n1)"
 	tail := "Read4(b2);LockTime=LE32(b2)"
 	inLoop := func(ep int, ext string) string {
-		return fmt.Sprintf("Loop[(i < n1#%d)]{Input.readFrom(extended=%s); append(Inputs)}", ep, ext)
+		return fmt.Sprintf("Loop[(i < n1#%d)]{Input.readFrom(fresh1,extended=%s); append(Inputs<-fresh1)}", ep, ext)
 	}
 	outLoop := func(ep int) string {
-		return fmt.Sprintf("Loop[(i < n2#%d)]{Output).ReadFrom; append(Outputs)}", ep)
+		return fmt.Sprintf("Loop[(i < n2#%d)]{Output).ReadFrom(fresh1); append(Outputs<-fresh1)}", ep)
 	}
 	want := map[string]string{
 		"ambiguous empty transaction (0 in, 0 out, next four bytes are the locktime)": "(BE32(b2) != 239) && n1#1=0 && n2#1=0 :: " + head + ";VarInt(n2);" + tail,
@@ -654,12 +717,12 @@ func ruleWRdTx(c *Ctx) {
 	// Txs.ReadFrom: count then that many transactions
 	if tfn := c.P.Func("", "*Txs", "ReadFrom"); tfn != nil {
 		ps, err := reducedPaths(c, tfn)
-		ok := err == nil && len(ps) == 1 && normaliseCounts(strings.Join(ps[0].events, ";")) == "VarInt(n1);Loop[(i < n1#1)]{Tx).ReadFrom}"
+		ok := err == nil && len(ps) == 1 && normaliseCounts(strings.Join(ps[0].events, ";")) == "VarInt(n1);Loop[(i < n1#1)]{Tx).ReadFrom(fresh1); append(*self<-fresh1)}"
 		detail := ""
 		if err == nil && len(ps) > 0 {
 			detail = strings.Join(ps[0].events, ";")
 		}
-		c.Check(ok, "W-rd", "Txs.ReadFrom", tfn.Pos(), "reads a count and then exactly that many transactions", "Txs.ReadFrom does not read <count> transactions after the count: "+detail)
+		c.Check(ok, "W-rd", "Txs.ReadFrom", tfn.Pos(), "reads a count and then exactly that many transactions, each into its own new object which is appended", "Txs.ReadFrom does not read <count> transactions after the count: "+detail)
 	}
 }
 
